@@ -126,10 +126,13 @@ func c02Devs() []c02Dev {
 		c.Subject = "CN=under_score@host!, 1.2.3.4=my_attr@x, 2.5.4.97=Zoë*, SERIALNUMBER=a&b, C=DE"
 	})
 	// validity around the UTCTime / GeneralizedTime switch
-	for _, v := range [][2]string{{"1950-01-01", "1951-01-01"}, {"1999-12-12", "2049-12-12"}, {"2049-12-31", "2050-01-01"}, {"2050-01-01", "2051-01-01"}, {"2049-11-11", "2200-12-12"}, {"2100-02-02", "2200-12-31"}} {
+	for _, v := range [][2]string{{"1950-01-01", "1951-01-01"}, {"1999-12-12", "2049-12-12"}, {"2049-12-31", "2050-01-01"}, {"2050-01-01", "2051-01-01"}, {"2049-11-11", "2200-12-12"}, {"2100-02-02", "2200-12-31"},
+		// far dates: beyond what a 64-bit count of nanoseconds since 1970 holds (2262-04-11), and the "no expiry" date of RFC 5280
+		{"2262-04-11", "2262-04-12"}, {"2024-01-01", "2263-01-01"}, {"2400-02-29", "9999-12-31"}, {"2024-06-01", "9999-12-31"}, {"1600-01-01", "1700-03-01"}} {
 		v := v
 		add("validity", v[0]+".."+v[1], func(c *refcfg.CertCfg, _ *c02Aux) { c.Validity = &refcfg.Validity{From: v[0], Until: v[1]} })
 	}
+	add("validity", "relative-300y", func(c *refcfg.CertCfg, _ *c02Aux) { c.Validity = &refcfg.Validity{Duration: "300y"} })
 	add("validity", "relative-100y", func(c *refcfg.CertCfg, _ *c02Aux) { c.Validity = &refcfg.Validity{Duration: "100y"} })
 	add("validity", "none", func(c *refcfg.CertCfg, _ *c02Aux) { c.Validity = nil })
 	for _, s := range []int64{1, 127, 128, 255, 256, 1 << 31, math.MaxInt64} {
@@ -403,6 +406,11 @@ func c02Once(x *engine.Ctx, c *c02Case) (violations int) {
 				if df.Owner == "C03" && (strings.HasPrefix(df.Class, "C03/uid/") || strings.HasPrefix(df.Class, "C03/serial/")) {
 					v("C02/readback/"+strings.TrimPrefix(df.Class, "C03/"), df.Detail+"  ["+strings.Join(names, " ")+"]")
 				}
+				// the two times: a parser reads back the configured dates (C04 owns the arithmetic; here the dates are given
+				// outright, so a difference means the encoding does not carry the configured field)
+				if df.Owner == "C04" && cfg.Validity != nil && cfg.Validity.From != "" && cfg.Validity.Until != "" {
+					v("C02/readback/"+strings.TrimPrefix(df.Class, "C04/"), df.Detail+"  ["+strings.Join(names, " ")+"]")
+				}
 				// an INTEGER inside an extension (basicConstraints pathLen) that reads back as another number
 				if df.Owner == "C07" && strings.HasPrefix(df.Class, "C07/basicConstraints/") && !strings.Contains(df.Class, "pathLen=0") {
 					v("C02/readback/basicConstraints", df.Detail+"  ["+strings.Join(names, " ")+"]")
@@ -471,7 +479,7 @@ func init() {
 	register(&engine.Check{
 		ID:          "C02",
 		Level:       "exploration",
-		Rule:        fmt.Sprintf("baseline configuration +- up to 2 deviations drawn from %d values in 8 dimensions (incl. 5 local time zones of the process) (subject lengths across the 127/128 and 255/256 header transitions at every nesting level, validity across 1950/2049/2050/2200, 8 serial values, 12 unique-id settings, all 56 fitting key+signature algorithm pairs, 3 issuer key types, 25 extension sets incl. raw bodies of 127..65536 octets), all singles and all cross-dimension pairs, plus 200 unconfigured-serial draws; thorough adds every triple over the four small dimensions. Each certificate goes through a DER linter (minimal lengths, INTEGER, BOOLEAN, BIT STRING, OID, time forms, SET OF order, DEFAULT values absent, named-bit-list minimality), decode/re-encode, PEM re-encode, field comparison with the reference model, and crypto/x509 as second acceptor where it supports the curve; through the cert package one certificate context signed twice (every ordered pair of signature algorithms of a family), both certificates through the same lint and parser. non-trivial = distinct deviation set that produced a certificate", len(c02DevList)),
+		Rule:        fmt.Sprintf("baseline configuration +- up to 2 deviations drawn from %d values in 8 dimensions (incl. 5 local time zones of the process) (subject lengths across the 127/128 and 255/256 header transitions at every nesting level, validity across 1950/2049/2050/2200/2262/9999 and before 1700, 8 serial values, 12 unique-id settings, all 56 fitting key+signature algorithm pairs, 3 issuer key types, 25 extension sets incl. raw bodies of 127..65536 octets), all singles and all cross-dimension pairs, plus 200 unconfigured-serial draws; thorough adds every triple over the four small dimensions. Each certificate goes through a DER linter (minimal lengths, INTEGER, BOOLEAN, BIT STRING, OID, time forms, SET OF order, DEFAULT values absent, named-bit-list minimality), decode/re-encode, PEM re-encode, field comparison with the reference model, and crypto/x509 as second acceptor where it supports the curve; through the cert package one certificate context signed twice (every ordered pair of signature algorithms of a family), both certificates through the same lint and parser. non-trivial = distinct deviation set that produced a certificate", len(c02DevList)),
 		Bound:       map[string]string{"deviations from baseline": "<=2 (thorough: 3 over validity/serial/uid/issuer)"},
 		Assumptions: []string{"configurations with manipulations are excluded by the statement", "negative configured serials are outside C03's domain", "unconfigured serials are random: 200+ draws observe the length distribution, the bound (<=20 octets) is also argued from the constant in the source"},
 		Budget:      budgets(quickBudget, thoroughBudget),
